@@ -537,6 +537,76 @@ def check_c04_histories(tier, seed):
                                 if bad:
                                     b.fail("C04.histories.shape_mirror", dict(history=desc), bad)
                                 b.case(desc)
+
+    # ---- which results are views: every shape-manipulation routine x every source layout, in the function / method / NumPy-on-tensor spelling -----
+    # source = a slicing pattern of a (3,4) owner of either memory order; result = routine(source).  Mirror on NumPy: the result shares memory
+    # with the owner exactly when NumPy's does, `.base` is the owner then and None otherwise; after an in-place update of the owner, and after one
+    # of the result, owner / source / result hold NumPy's values.
+    sources = [
+        ("x", lambda x: x), ("x[0, ::2]", lambda x: x[0, ::2]), ("x[1, ::-1]", lambda x: x[1, ::-1]), ("x[:, 1:2]", lambda x: x[:, 1:2]), ("x[::2]", lambda x: x[::2]), ("x.T", lambda x: x.T),
+        ("x[::-1]", lambda x: x[::-1]), ("x[:, ::-1]", lambda x: x[:, ::-1]), ("x[1:]", lambda x: x[1:]), ("x[None]", lambda x: x[None]), ("x[1]", lambda x: x[1]), ("x[:, 0]", lambda x: x[:, 0]),
+        ("x[:, ::3]", lambda x: x[:, ::3]), ("x.T[1:3]", lambda x: x.T[1:3]),
+    ]
+    routines = [
+        ("ravel", lambda xp, t: xp.ravel(t)), ("ravel()", lambda xp, t: t.ravel()), ("flatten()", lambda xp, t: t.flatten()), ("reshape(-1)", lambda xp, t: t.reshape(-1)), ("reshape(t,-1)", lambda xp, t: xp.reshape(t, -1)),
+        ("reshape(1,-1)", lambda xp, t: t.reshape(1, -1)), ("reshape(-1,1)", lambda xp, t: t.reshape(-1, 1)), ("squeeze", lambda xp, t: xp.squeeze(t)), ("squeeze()", lambda xp, t: t.squeeze()),
+        ("expand_dims0", lambda xp, t: xp.expand_dims(t, 0)), ("expand_dims-1", lambda xp, t: xp.expand_dims(t, -1)), ("T", lambda xp, t: t.T), ("transpose", lambda xp, t: xp.transpose(t)), ("transpose()", lambda xp, t: t.transpose()),
+        ("swapaxes", lambda xp, t: xp.swapaxes(t, 0, -1)), ("moveaxis", lambda xp, t: xp.moveaxis(t, 0, -1)), ("[...]", lambda xp, t: t[...]), ("[::-1]", lambda xp, t: t[::-1]), ("[[0]]", lambda xp, t: t[[0]]),
+        ("[t>0]", lambda xp, t: t[np.asarray(t) > 0]), ("atleast_2d", lambda xp, t: xp.atleast_2d(t)), ("broadcast_to", lambda xp, t: xp.broadcast_to(t, (2,) + tuple(t.shape))), ("roll", lambda xp, t: xp.roll(t, 1)),
+        ("repeat", lambda xp, t: xp.repeat(t, 1)), ("copy()", lambda xp, t: t.copy()), ("astype", lambda xp, t: t.astype(t.dtype)), ("+0", lambda xp, t: t + 0),
+    ]
+    vals = rng.uniform(-2, 2, size=(3, 4))
+    for layout in ("C", "F"):
+        for sn, sf in sources:
+            for rn, rf in routines:
+                for spelling in ("mg", "np-on-tensor"):
+                    root = vals.copy() if layout == "C" else np.asfortranarray(vals)
+                    xr = root * 1.0
+                    xt = mg.tensor(root, copy=False) * 1.0
+                    desc = dict(owner_order=layout, source=sn, routine=rn, spelling=spelling)
+                    try:
+                        rr = rf(np, sf(xr))
+                    except Exception:
+                        continue  # NumPy rejects: outside the domain
+                    if spelling == "np-on-tensor" and (rn.endswith("()") or rn in ("T", "[...]", "[::-1]", "[[0]]", "[t>0]", "astype", "+0", "reshape(-1)", "reshape(1,-1)", "reshape(-1,1)")):
+                        continue  # method / operator spellings are the same call in both
+                    try:
+                        st = sf(xt)
+                        rt = rf(mg if spelling == "mg" else np, st)
+                    except Exception as e:
+                        b.fail("C04.viewness.raises", desc, f"{type(e).__name__}: {e}")
+                        continue
+                    if not isinstance(rt, Tensor):
+                        continue  # a NumPy function mygrad does not override returns an array: not a tensor routine
+                    b.count("view-ness of a shape routine")
+                    bad = None
+                    rr_shares = bool(rr.size) and np.shares_memory(rr, xr)
+                    if rt.shape != rr.shape or not np.array_equal(rt.data, rr):
+                        bad = f"value/shape differs: {rt.data.tolist()} vs numpy {rr.tolist()}"
+                    elif bool(rt.size) and np.shares_memory(rt.data, xt.data) != rr_shares:
+                        bad = f"shares memory with the owner: {np.shares_memory(rt.data, xt.data)}, NumPy: {rr_shares}"
+                    elif rt is xt or rt is st:
+                        pass  # the routine handed back its argument itself (NumPy does the same for some no-ops): nothing new to relate
+                    elif rr_shares and rt.base is not xt:
+                        bad = f".base is {'None' if rt.base is None else 'another tensor'} although the result shares the owner's memory"
+                    elif not rr_shares and rr.size and rt.base is not None:
+                        bad = ".base is set although the result owns its memory"
+                    if bad is None:
+                        xr[0] *= 3.0
+                        xt[0] *= 3.0
+                        if not np.array_equal(rt.data, rr) or not np.array_equal(st.data, sf(xr)):
+                            bad = f"after an in-place update of the owner the result holds {rt.data.tolist()}, NumPy's {rr.tolist()}"
+                    if bad is None and rr.size and rr.flags.writeable:
+                        try:
+                            rr[...] = rr * 0.5 + 1.0
+                            rt[...] = rt * 0.5 + 1.0
+                        except Exception as e:
+                            bad = f"in-place update of the result raises {type(e).__name__}: {e}"
+                        if bad is None and (not np.array_equal(xt.data, xr) or not np.array_equal(rt.data, rr)):
+                            bad = f"after an in-place update of the result the owner holds {xt.data.tolist()}, NumPy's {xr.tolist()}"
+                    if bad:
+                        b.fail("C04.viewness.mirror", desc, bad)
+                    b.case(desc)
     return b
 
 
